@@ -173,25 +173,31 @@ def handleCmds (s : St K) (cmds : List CCmd) : St K := cmds.foldl handleCmd s
 def deliver (child : Child) (s : St K) (e : CEv) : St K :=
   handleCmds { s with toChild := s.toChild ++ [e] } (child s.toChild e)
 
+/-- ghost: the event was passed to `event_to_child` -/
+def addRouted (s : St K) (e : CEv) : St K := { s with routed := s.routed ++ [e] }
+/-- `self._event_queue.append(event)` -/
+def enqueue (s : St K) (e : CEv) : St K := { s with queue := s.queue ++ [e] }
+
 /-- `event_to_child` -/
 def eventToChild (child : Child) (s : St K) (e : CEv) : St K :=
-  let s := { s with routed := s.routed ++ [e] }
-  if s.errored then s
-  else if s.st = .establishing && !s.replyTo then { s with queue := s.queue ++ [e] }
-  else deliver child s e
+  if s.errored then addRouted s e
+  else if s.st = .establishing && !s.replyTo then enqueue (addRouted s e) e
+  else deliver child (addRouted s e) e
+
+def feedIf (c : K.σ) (d : Bytes) : K.σ := if d.isEmpty then c else K.feed c d      -- `if data: self.tls.bio_write(data)`
+def afterRecv (s : St K) (c2 : K.σ) (e : RecvEnd) : St K := { s with tls := some c2, rxError := s.rxError || e == .err }
 
 /-- `TLSLayer.receive_data` -/
 def receiveData (child : Child) (s : St K) (d : Bytes) : St K :=
   match s.tls with
   | none => { s with crashed := true }
   | some c =>
-    let c1 := if d.isEmpty then c else K.feed c d
-    let (plain, e, c2) := recvLoop K (K.inPending c1 + 1) c1 []
-    let s := { s with tls := some c2, rxError := s.rxError || e == .err }
-    let s := if e == .err then emit s [.log 1] else s
-    let s := interact s
-    let s := if plain.isEmpty then s else eventToChild child s (.data plain)
-    if e == .closed then eventToChild child s .closed else s
+    let r := recvLoop K (K.inPending (feedIf c d) + 1) (feedIf c d) []
+    let s1 := afterRecv s r.2.2 r.2.1
+    let s2 := if r.2.1 == .err then emit s1 [.log 1] else s1
+    let s3 := interact s2
+    let s4 := if r.1.isEmpty then s3 else eventToChild child s3 (.data r.1)
+    if r.2.1 == .closed then eventToChild child s4 .closed else s4
 
 /-- `TLSLayer.start_tls`: true = an SSL object is in place -/
 def startTls (env : Env K) (s : St K) : St K × Bool :=
@@ -205,8 +211,7 @@ def hsTls (child : Child) (s : St K) (d : Bytes) : St K × Bool × Bool :=
   match s.tls with
   | none => ({ s with crashed := true }, false, false)
   | some c =>
-    let c1 := if d.isEmpty then c else K.feed c d
-    match K.handshake c1 with
+    match K.handshake (feedIf c d) with
     | (.wantRead, c2) => (interact { s with tls := some c2 }, false, false)
     | (.error, c2) => ({ s with tls := some c2 }, false, true)
     | (.done, c2) =>
@@ -239,14 +244,15 @@ def onHandshakeError (s : St K) : St K :=
   let s := emit s [.log 2, .hook 3, .close]
   if s.side = .client then { s with errored := true } else s
 
+def setSt (s : St K) (v : TState) : St K := { s with st := v }
+def clearReply (s : St K) : St K := { s with replyTo := false }
+def clearQueue (s : St K) : St K := { s with queue := [] }
+
 /-- `_handshake_finished` -/
 def handshakeFinished (child : Child) (s : St K) (err : Bool) : St K :=
-  let s := { s with st := if err then .closed else .open_ }
-  if s.replyTo then
-    { eventToChild child s (.opened err) with replyTo := false }
-  else
-    let q := s.queue
-    { q.foldl (eventToChild child) s with queue := [] }
+  let t := setSt s (if err then .closed else .open_)
+  if s.replyTo then clearReply (eventToChild child t (.opened err))
+  else clearQueue (s.queue.foldl (eventToChild child) t)
 
 /-- `start_handshake` -/
 def startHandshake (env : Env K) (child : Child) (s : St K) : St K :=
